@@ -1,0 +1,32 @@
+//
+// go.sh/interp :: verif.go
+//
+//   Synchronisation points announced to an external deterministic
+//   scheduler when built with the "verif" build tag. Without the tag
+//   verifYield is an empty function and nothing here has any effect.
+//
+
+package interp
+
+const (
+	verifSpawn        = iota + 1 // note: a lexer goroutine is about to be started
+	verifStart                   // yield: first statement of the lexer goroutine
+	verifTerminal                // yield: lexer goroutine is about to close its channels and exit
+	verifPreRecv                 // yield: before the parser receives a token
+	verifPostRecv                // yield: after the parser received a token
+	verifPreSend                 // yield: before the lexer offers a token (may return a verifForce* decision)
+	verifPostSend                // yield: after the lexer handed a token over
+	verifBailout                 // yield: lexer saw cancel and is about to bail out
+	verifPreHeredoc              // yield: before waiting for a here-document redirection
+	verifPostHeredoc             // yield: after a here-document wake-up
+	verifPreJoin                 // yield: before waiting for a nested lexer
+	verifPostJoin                // yield: after a nested lexer has finished
+	verifCancelClosed            // note: the cancel channel has been closed
+	verifPreReturn               // yield: the entry point is about to read its results
+	verifReturn                  // yield: the entry point returns
+)
+
+const (
+	verifForceSend = 1
+	verifForceBail = 2
+)
